@@ -1,3 +1,4 @@
 INIT Init
 NEXT Next
+CONSTANT Dense = TRUE
 INVARIANTS WF RoundTrip FieldOnly Sound Tight IntAgrees ModImmLiteral
